@@ -62,8 +62,9 @@ def judge (f out : List String) : Verdict :=
   | ["partition", alpha, n, ty, circ, ds] =>
     let ws := allWords alpha.toList (natOfStr n)
     match out with
-    | ["ok", joined] =>
-      let hs := joined.splitOn ","
+    | "ok" :: fields =>
+      -- one reply field per word (a single comma-joined field is still accepted)
+      let hs := match fields with | [joined] => joined.splitOn "," | fs => fs
       if hs.length != ws.length then { corr := false, judge := some false, cls := "partition", detail := "count mismatch" } else
       let c := C04.b circ; let d := C04.b ds
       -- hash -> canon and canon -> hash must both be functional
